@@ -18,6 +18,12 @@ def base_streams(rnd, n):
         pad = target - len(hs) - len(b"X-Pad: \r\n")
         hs = hs[:-2] + b"X-Pad: " + b"p" * pad + b"\r\n\r\n"
         out.append(("bighdr", hs, E(1, b"after the header"), {}, None))
+    # always present: a first response that is not the 101 -- an interim 100 / 102 / 103, a 200, a 404 with a body -- with a
+    # complete 101 reply and frames right behind it (in the same read, in the next one, cut anywhere): whatever the client
+    # makes of it, it makes the same of it under every segmentation
+    for first in (b"HTTP/1.1 100 Continue\r\n\r\n", b"HTTP/1.1 102 Processing\r\n\r\n", b"HTTP/1.1 103 Early Hints\r\nLink: </s.css>; rel=preload\r\n\r\n",
+                  b"HTTP/1.1 200 OK\r\nContent-Length: 2\r\n\r\nok", b"HTTP/1.1 404 Not Found\r\nContent-Length: 0\r\n\r\n"):
+        out.append(("not101-first", first, scen.HANDSHAKE + E(1, b"behind the second reply") + E(9, b"p"), {}, len(first)))
     for i in range(n):
         kind = rnd.choice(["valid", "valid", "invalid", "appclose", "appsend", "bighdr", "closemid"])
         hs = scen.HANDSHAKE
